@@ -5,7 +5,7 @@ import MM.Model.C09
   Line-protocol oracle for `routing.DomainTable`, `ForwardTable`, `AgentTable` (C09; also C10).
   Ops carry a table letter `d` / `f` / `a`; every table has its own clock.
 
-    reset <self>
+    reset <self> [f:<in>:<out> | t:<in>:<out>]…    (Go's strings.ToLower / TrimSpace of the case's non-ASCII strings)
     dadd <pattern> <isWild 0|1> <base> <nh> <origin> <metric> <seq> <path>   (fields as a caller supplies them)
     dadv <pattern> <nh> <origin> <metric> <seq> <path>                        (fields from ParseDomainPattern, as the Manager does)
     drm <pattern> <origin>      dlook <name>
@@ -47,6 +47,18 @@ def strOf (foldTab trimTab : List (Bytes × Bytes)) : Str :=
 
 def St.str (st : St) : Str := strOf st.foldTab st.trimTab
 
+/-- the oracle pairs a `reset` line may carry: `f:<in>:<out>` (strings.ToLower), `t:<in>:<out>`
+    (strings.TrimSpace) — in the case header, so that a shrunk replay keeps them -/
+def parseOracle (toks : List String) : List (Bytes × Bytes) × List (Bytes × Bytes) :=
+  toks.foldl (fun acc tok =>
+    match tok.splitOn ":" with
+    | [k, i, o] =>
+      match bytesOfHex i, bytesOfHex o with
+      | some a, some b =>
+        if k = "f" then ((a, b) :: acc.1, acc.2) else if k = "t" then (acc.1, (a, b) :: acc.2) else acc
+      | _, _ => acc
+    | _ => acc) ([], [])
+
 def ddump (s : State DKey DomPay) : String := dumpWith showDKey (showE showDomPay) s.now s.tab
 def fdump (s : State Bytes FwdPay) : String := dumpWith hexTok (showE showFwdPay) s.now s.tab
 def adump (s : State Nat Nat) : String := dumpWith toString (showE toString) s.now s.tab
@@ -76,7 +88,9 @@ def common {K P : Type} [DecidableEq K] (self : Nat) (s : State K P) (dump : Sta
 
 def step (st : St) (line : String) : St × String :=
   match tokens line with
-  | ["reset", self] => ({ self := natTok self }, "ok")
+  | "reset" :: self :: orc =>
+    let (ft, tt) := parseOracle orc
+    ({ self := natTok self, foldTab := ft, trimTab := tt }, "ok")
   | ["oracle", kind, i, o] =>
     match bytesOfHex i, bytesOfHex o with
     | some a, some b =>
@@ -237,6 +251,11 @@ def specDom (S : Str) (tab : List (Entry DomPay)) (d : Bytes) (answer : List Str
       else if !matchesB S r.pay d then "fail dom-not-applicable"
       else if r.pay.isWild && tab.any (fun e => !e.pay.isWild && matchesB S e.pay d) then
         "fail dom-exact-not-preferred"
+      else if r.pay.isWild && !(match splitDot d with
+          | some (l, b) => !l.isEmpty && !b.isEmpty
+          | none => false) then
+        -- independent of the folding: the name as given must have a first label and a rest
+        "fail dom-wildcard-raw-depth"
       else if tab.any (fun e => matchesB S e.pay d && e.pay.isWild == r.pay.isWild &&
           decide (e.metric < r.metric)) then "fail dom-not-lowest-metric"
       else "ok"
@@ -300,11 +319,15 @@ def specStep (st : SpecSt) (l : String) : SpecSt × String :=
   | [op, out] =>
     if out.startsWith "panic" || out.startsWith "crash" then (st, "fail crashed")
     else match tokens op with
-      | ["reset", self] => ({ self := natTok self }, "ok")
+      | "reset" :: self :: orc =>
+        if tokens out != ["ok"] then ({ self := natTok self }, "fail bad-oracle")
+        else
+          let (ft, tt) := parseOracle orc
+          ({ self := natTok self, foldTab := ft, trimTab := tt }, "ok")
       | ["oracle", kind, i, o] =>
         match bytesOfHex i, bytesOfHex o with
         | some a, some b =>
-          if out != "ok" then (st, "fail bad-oracle")
+          if tokens out != ["ok"] then (st, "fail bad-oracle")
           else if kind = "fold" then ({ st with foldTab := (a, b) :: st.foldTab }, "ok")
           else ({ st with trimTab := (a, b) :: st.trimTab }, "ok")
         | _, _ => (st, "bad-op")
